@@ -115,6 +115,9 @@ Accept(e) ==
     [] e.kind = "distinct" -> /\ BucketsOK(e.keys, e.res)
                               /\ Decided(e.keys) => TextRows(e.res) = TextRows(FirstOfBuckets(e.keys))
     [] e.kind = "group"    -> GroupOK(e)
+    \* COUNT(*) of a grouped derived table: one row per bucket of the inner query (n), one row if it is cut by LIMIT 1 (n1)
+    [] e.kind = "groupnest" -> /\ e.n1 = (IF e.keys = <<>> THEN 0 ELSE 1)
+                               /\ Decided(e.keys) => e.n = Len(FirstOfBuckets(e.keys))
     [] e.kind = "partition" -> PartitionOK(e)
     [] e.kind = "setop"    -> Decided(e.A \o e.B) => TextRows(e.res) = TextRows(SetOpRows(e))
     [] e.kind = "analytic" -> AnalyticOK(e)
